@@ -30,12 +30,24 @@ def near_pi2(rng):
     return Fr(int(v * 2 ** 70), 2 ** 70)
 
 
+def unit_circle_point(r):
+    """a complex rational within 2^-12 .. 2^-45 of the unit circle (|z|^2 - 1 cancels), in every quadrant"""
+    a, b = r.choice([(Fr(3, 5), Fr(4, 5)), (Fr(5, 13), Fr(12, 13)), (Fr(1), Fr(0)), (Fr(0), Fr(1)), (Fr(8, 17), Fr(15, 17)), (Fr(7, 25), Fr(24, 25))])
+    a *= r.choice([1, -1]); b *= r.choice([1, -1])
+    d = Fr(r.randint(-9, 9) or 1, 3 * 2 ** r.randint(12, 45))
+    return (a + d, b) if r.random() < 0.5 else (a, b + d)
+
+
 R1 = lambda r: sf.rq(r, -20, 20)
 TABLE = [(n, sf.A(R1), sf.F1(n)) for n in ["exp", "sin", "cos", "tan", "sinh", "cosh", "tanh", "atan", "asinh", "expm1", "sinc", "expj", "expjpi", "sinpi", "cospi", "sec", "csc", "cot"]] + \
         [(n, sf.A(lambda r: sf.posq(r, 200)), sf.F1(n)) for n in ["log", "sqrt", "cbrt", "log1p", "acosh"]] + \
         [(n, sf.A(lambda r: Fr(r.randint(-63, 63), 64)), sf.F1(n)) for n in ["asin", "acos", "atanh"]] + \
         [(n + "-near-pi/2", sf.A(near_pi2), sf.F1(n)) for n in ["sin", "cos", "tan", "sec", "cot"]] + \
         [(n + "-complex", sf.A(sf.cq), sf.F1(n)) for n in ["exp", "log", "sqrt", "sin", "cos", "tan", "sinh", "cosh", "tanh", "asin", "acos", "atan", "asinh", "acosh", "atanh", "cbrt", "expm1"]] + [
+    ("log-complex-near-unit-circle", sf.A(lambda r: unit_circle_point(r)), sf.F1("log")),
+    ("atan-complex-near-i", sf.A(lambda r: (Fr(r.randint(-9, 9), 2 ** r.randint(12, 45)), r.choice([1, -1]) * (1 + Fr(r.randint(-9, 9), 2 ** r.randint(12, 45))))), sf.F1("atan")),
+    ("atanh-complex-near-1", sf.A(lambda r: (r.choice([1, -1]) * (1 + Fr(r.randint(-9, 9), 2 ** r.randint(12, 45))), Fr(r.randint(-9, 9), 2 ** r.randint(12, 45)))), sf.F1("atanh")),
+    ("asin-complex-near-1", sf.A(lambda r: (r.choice([1, -1]) * (1 + Fr(r.randint(-9, 9), 2 ** r.randint(12, 45))), Fr(r.randint(-9, 9), 2 ** r.randint(12, 45)))), sf.F1("asin")),
     ("log-near-1", sf.A(lambda r: 1 + Fr(r.randint(-9, 9), 2 ** r.randint(8, 70))), sf.F1("log")),
     ("atanh-near-1", sf.A(lambda r: 1 - Fr(r.randint(1, 9), 2 ** r.randint(8, 60))), sf.F1("atanh")),
     ("acos-near-1", sf.A(lambda r: 1 - Fr(r.randint(1, 9), 2 ** r.randint(8, 60))), sf.F1("acos")),
@@ -90,7 +102,7 @@ def gen(chk, mpmath, rng):
     mp = mpmath.mp
     for item in real_events(chk, mpmath, rng, chk.pick(400, 20000)):
         yield item
-    for item in sf.samereal(chk, mpmath, rng, TABLE, 4, chk.pick(450, 20000), PROP):
+    for item in sf.samereal(chk, mpmath, rng, TABLE, 4, chk.pick(550, 20000), PROP, parts=("exp", "log", "sin", "cos", "sinh", "cosh"), hiprec=0.1):
         yield item
     for i in range(chk.pick(350, 12000)):
         p = rng.choice([10, 20, 53, 53, 100, 200, rng.randint(10, 500)]); mp.prec = p
